@@ -221,8 +221,8 @@ def cases(tier, rng):
         for (a, b, r) in deep_ripple_pairs(rng, n, 120 if big else 40, 200000):
             add("mul-deep-ripple", case2("mul", n, a, b))
     for n in range(4, NMAX + 1):
-        for L in range(2, n):
-            for (a, b) in construct_hi_ripple(rng, n, L):
+        for lidx in range(2, n):
+            for (a, b) in construct_hi_ripple(rng, n, lidx):
                 add("mul-deep-ripple-hi", case2("mul", n, a, b))
                 add("mul-deep-ripple-hi", case2("mul", n, b, a))
     # -- 3. exact overflow boundaries
